@@ -153,7 +153,7 @@ impl Engine for C04Engine {
     fn strategy(&self, tier: Tier) -> BoxedStrategy<Self::Case> {
         use proptest::prelude::*;
         let a = alloc::AllocEngine { prop: "C04" }.strategy(tier).prop_map(C04Case::Alloc);
-        let s = sim::case_strategy("placement", 80, 90).prop_map(C04Case::Sim);
+        let s = sim::case_strategy("resources", 80, 90).prop_map(C04Case::Sim);
         prop_oneof![10 => a, 1 => s].boxed()
     }
     fn quick_cases(&self) -> usize {
@@ -178,7 +178,7 @@ impl Engine for C04Engine {
     }
     fn rule(&self) -> String {
         format!(
-            "{} | 1 of 11 cases is a SIM history (profile 'placement') in which the allocations of all executions live at the same time on each real worker are checked against the same ledger, each grant against the request, and HQ_RESOURCE_VALUES_* / HQ_CPUS against the held indices; non-trivial there = at least two concurrent executions on one worker and a fractional allocation or a start from the prefilled backlog",
+            "{} | 1 of 11 cases is a SIM history (profile 'resources': frequent launch failures, task failures, cancels, time-limit expiries) in which the allocations of all executions live at the same time on each real worker are checked against the same ledger, each grant against the request, HQ_RESOURCE_VALUES_* / HQ_CPUS against the held indices, and after every step the free state of every pool of every live worker plus what its running tasks hold against the worker's resources, index by index (conservation); non-trivial there = at least two concurrent executions on one worker and a fractional allocation or a start from the prefilled backlog",
             alloc::AllocEngine { prop: "C04" }.rule()
         )
     }
